@@ -264,7 +264,12 @@ theorem target_value {constants labels : Dict} {ref : String} {d : Int} (hc : co
     transfer with pc-relative offset `v`, and `off + v = tgt`:
       (1) conditional branches `b<cond> rs1, rs2, ref`, (2) `jal rd, ref` (also `j`, `jal ref`, near `call` /
       `tail`), (3) `c.j` / `c.jal`, (4) `c.beqz` / `c.bnez`, (5) the `auipc` + `jalr` pair of a far call / tail
-      (`off + (f << 12) + lo ≡ tgt` modulo 2^32 - what the machine computes). -/
+      (`off + (f << 12) + lo ≡ tgt` modulo 2^32 - what the machine computes for `jalr` relative to the
+      register the `auipc` wrote; the distance `tgt - off` is EVEN, so the bit 0 that `jalr` clears is 0
+      anyway; and the `jalr` does read the register the `auipc` wrote, `r2 = ra`, whenever the pair names
+      the same operand `rsJ = rdA` - which is what `transform_pseudo_instructions` generates for every
+      far `call` (x1) / `tail` (x6); for a hand-made item pair with different operands nothing about the
+      jump target is claimed). -/
 theorem assemble_transfer_lands_on_label (H : Hooks) (compress : Bool) (items : List Item) (r : AsmResult)
     (hnn : NonNeg items)
     (h : assembleItems H compress items [] [] = .ok r) :
@@ -321,7 +326,9 @@ theorem assemble_transfer_lands_on_label (H : Hooks) (compress : Bool) (items : 
             decode32 wa = some (.auipc ra f) ∧ decode32 wj = some (.jalr r1 r2 lo) ∧
             lookupRegister rdA = some ra ∧ lookupRegister rdJ = some r1 ∧ lookupRegister rsJ = some r2 ∧
             ((((blobBytes (out.take i)).length : Int) + (((f : Int) * 4096) % 4294967296 + lo)) % 4294967296
-              = ((blobBytes (parts.take k).flatten).length : Int) % 4294967296)) := by
+              = ((blobBytes (parts.take k).flatten).length : Int) % 4294967296) ∧
+            (((blobBytes (parts.take k).flatten).length : Int) - ((blobBytes (out.take i)).length : Int)) % 2 = 0 ∧
+            (rsJ = rdA → r2 = ra)) := by
   obtain ⟨lay, out, hF, parts, hlen, hflat, himg, _, hval⟩ := assemble_layout_framed H compress items r hnn h
   refine ⟨lay, out, hF, parts, hlen, hflat, himg, ?_, ?_, ?_, ?_, ?_⟩
   · obtain ⟨lay', out', hF', hall⟩ := assemble_branch_lands H compress items r h
@@ -355,11 +362,12 @@ theorem assemble_transfer_lands_on_label (H : Hooks) (compress : Bool) (items : 
   · obtain ⟨lay', out', hF', hall⟩ := assemble_far_pair_lands H compress items r h
     obtain ⟨rfl, rfl⟩ := Frame.unique hF hF'
     intro i hi lineA lineJ rdA rdJ rsJ ref k hk lineL hA hJ hlabel hconst
-    obtain ⟨wa, wj, ra, r1, r2, f, lo, d, hsA, hsJ, hdA, hdJ, hra, hr1, hr2, hd, hmod⟩ :=
+    obtain ⟨wa, wj, ra, r1, r2, f, lo, d, hsA, hsJ, hdA, hdJ, hra, hr1, hr2, hd, hmod, hev, hsame⟩ :=
       hall i hi lineA lineJ rdA rdJ rsJ ref hA hJ
     have := (target_value hconst hd).symm.trans (hval k hk lineL ref hlabel)
     simp only [Option.some.injEq] at this
-    exact ⟨wa, wj, ra, r1, r2, f, lo, hsA, hsJ, hdA, hdJ, hra, hr1, hr2, by rw [hmod, this]⟩
+    exact ⟨wa, wj, ra, r1, r2, f, lo, hsA, hsJ, hdA, hdJ, hra, hr1, hr2, by rw [hmod, this],
+      by rw [← this]; exact hev, hsame⟩
 
 /-! ### an instance, evaluated by the kernel
 
